@@ -31,6 +31,7 @@ import CoapVerif.Model.WkLive
 -- DRIVER-OPS: get => Coap.Driver.LinkFormat.getStep
 -- DRIVER-OPS: getx => Coap.Driver.LinkFormat.getxStep
 -- DRIVER-OPS: wklive => Coap.Driver.LinkFormat.wkliveStep
+-- DRIVER-OPS: wkev => Coap.Driver.LinkFormat.wkevStep
 namespace Coap.Driver.LinkFormat
 open Coap Coap.LF Coap.M.LF
 
@@ -245,6 +246,58 @@ def wkliveStep (args : List String) : String :=
   | [evs] =>
     match (evs.splitOn "/").mapM parseEv with
     | some evs => "M " ++ showLive (liveRun 5001 LState.init evs) ++ " | S " ++ showLive (liveSpec [] evs)
+    | none => "bad-op"
+  | _ => "bad-op"
+
+/-- one event of a `wkev` line: the table events of `wklive`, `b<sid><szx>:<num>:<rtag|N>:<queries>` (ONE block request),
+`t<sid>` (every lg_xmit of the session times out) -/
+def parseBEv (e : String) : Option BEv :=
+  let rest := (e.drop 1).toString
+  if e.startsWith "b" then
+    match rest.splitOn ":" with
+    | [ds, num, rt, q] =>
+      match ds.toList with
+      | [sid, szx] =>
+        if '0' ≤ sid ∧ sid ≤ '3' ∧ '0' ≤ szx ∧ szx ≤ '6' then do
+          let num ← num.toNat?
+          let rt ← if rt = "N" then some none else (bytesOfHex rt).map some
+          let o ← parseOpts q
+          pure (.get ⟨sid.toNat - 48, num, szx.toNat - 48, o, rt⟩)
+        else none
+      | _ => none
+    | _ => none
+  else if e.startsWith "t" then
+    match rest.toList with
+    | [sid] => if '0' ≤ sid ∧ sid ≤ '3' then some (.expire (sid.toNat - 48) []) else none
+    | _ => none
+  else
+    match parseEv e with
+    | some (.op o) => some (.op o)
+    | _ => none
+
+/-- ETags are shown as `E<k>`, k = rank of first appearance in the line (`context->etag` starts at a random value) -/
+def showObs (tr : List Obs) : String :=
+  let step := fun (acc : List Nat × List String) (o : Obs) =>
+    match o.resp with
+    | .err c => (acc.1, acc.2 ++ ["e" ++ toString c])
+    | .blk p m none => (acc.1, acc.2 ++ [hexOrDash p ++ ":" ++ (if m then "1" else "0") ++ ":-"])
+    | .blk p m (some e) =>
+      let seen := if acc.1.contains e then acc.1 else acc.1 ++ [e]
+      (seen, acc.2 ++ [hexOrDash p ++ ":" ++ (if m then "1" else "0") ++ ":E" ++ toString (seen.idxOf e)])
+  let r := tr.foldl step ([], [])
+  if r.2.isEmpty then "." else String.intercalate "," r.2
+
+/-- `wkev <events>`: M: `runB` (block-level: cache keyed by session / query / Request-Tag, ETag of the body, timeouts, table
+changes while transfers are under way) | S: per block request the listing of the table AS IT IS at that moment for the
+request's filter (the judge groups the responses by ETag and compares with the listing at the ETag's block 0) -/
+def wkevStep (args : List String) : String :=
+  match args with
+  | [evs] =>
+    match (evs.splitOn "/").mapM parseBEv with
+    | some evs =>
+      let tr := runB (BState.init [] 0) evs
+      "M " ++ showObs tr ++ " | S " ++
+        (if tr.isEmpty then "." else String.intercalate "," (tr.map fun o => hexOrDash (getListing o.table o.req.opts)))
     | none => "bad-op"
   | _ => "bad-op"
 
